@@ -327,9 +327,13 @@ async def _do_op(reader, op, enc):
         if op[0] == 'iter':
             # `async for line in reader` has to end at EOF
             parts = []
+            empties = 0
             async for line in reader:
                 parts.append(line)
-                if len(parts) > 100000 or (not line and len(parts) > 50):
+                # (one empty item when EOF arrives after the last line was
+                # taken is how the iterator ends; a run of them is a spin)
+                empties = empties + 1 if not line else 0
+                if len(parts) > 100000 or empties > 20:
                     return ('exc', 'line iteration does not end at EOF')
             return ('ok', ('' if enc else b'').join(parts))
         sep, _ = _compile(op[1], enc)
